@@ -183,6 +183,10 @@ def cases(thorough):
     for nm, fb, db, lb in specials:
         text = module(func("  fmov f1, 12345.5f\n  dmov d1, 12345.5\n  ldmov l1, 12345.5L\n  mov r, 0\n") + "sd1: f 12345.5f\nsd2: d 12345.5\nsd3: ld 12345.5L\n")
         add("special fp " + nm, text, run=0, binary_only=1, fbits=fb, dbits=db, ldbits=lb)
+    # ---- integer bit patterns the scanner cannot be trusted to produce from text: patched into the scanned module (immediates, i64/u64/p data), then written and re-read ----
+    for v in [2**63, 2**63 + 1, 2**64 - 1, 2**63 - 1, 0xffffffff80000000, 2**32, 2**31, 0x8000000080000000, 10**19, 1, 0]:
+        text = module(func("  mov r, 1234567\n  add r, r, 1234567\n  mov r1, i64:1234567(m)\n") + "si1: i64 1234567\nsi2: u64 1234567, 5\nsi3: p 1234567\nsi4: i32 7\n")
+        add("special int %#x" % v, text, run=0, ibits=struct.pack("<Q", v).hex())
     return out
 
 
